@@ -192,12 +192,16 @@ theorem arrive_wat {s : State} {i : Nat} (h : WatX s (some i)) : Wat (arrive s i
     · exact WatX_setThread h ht rfl rfl (Or.inl rfl)
     · exact WatX_setThread h ht rfl rfl (Or.inl rfl)
     · exact WatX_setThread h ht rfl rfl (Or.inl (by split <;> rfl))
-    · split
-      · next rest _ _ =>
-        have h1 : Wat (s.setThread i { t with pc := Pc.saDebStarted, script := rest }) :=
-          WatX_setThread h ht rfl rfl (Or.inl rfl)
-        exact WatX_append_other h1 { kind := .deb, pc := .begin } rfl rfl rfl rfl rfl
-      · exact WatX_setThread h ht rfl rfl (Or.inl rfl)
+    · exact WatX_setThread h ht rfl rfl (Or.inl rfl)
+
+theorem startBody_wat {s : State} {i : Nat} (h : WatX s (some i)) : Wat (startBody s i) := by
+  unfold startBody
+  split
+  · exact arrive_wat (WatX_congr (s' := s.log _) h rfl rfl rfl)
+  · split
+    · have h1 : Wat (s.setPc i Pc.saDebStarted) := WatX_setPc h _ (Or.inl rfl)
+      exact WatX_append_other h1 { kind := .deb, pc := .begin } rfl rfl rfl rfl rfl
+    · exact WatX_setPc h _ (Or.inl rfl)
 
 theorem debHead_wat {s : State} {i : Nat} (h : WatX s (some i)) : Wat (debHead s i) := by
   unfold debHead
@@ -335,6 +339,7 @@ theorem stepT_wat {s : State} {i : Nat} {t : Thread} (inv : Inv s) (h : Wat s) (
     · exact WatX_setPc hx _ (Or.inl rfl)
     · exact watcherLoop_wat _ hx
   · exact arrive_wat hx
+  · exact startBody_wat hx
   · exact WatX_setPc hx _ (Or.inl rfl)
   · -- saRAcq
     next hb =>
